@@ -6,6 +6,14 @@ package c13
 // only the first t bytes sent as a frame of size t, or one length field -- a
 // string length, the stat's size, the count of an Rread -- raised beyond the
 // frame's end) followed by the well-formed replies of the remaining calls.
+// Third mutation, oversize: the reply is ILLEGAL BY ITS SIZE and nothing else --
+// an Rread, well-formed in itself, whose frame is larger than the connection's
+// msize (msize+1 .. 8 x msize, which the client's receive buffer can hold
+// whole, and up to 64 bytes more, which it cannot). go9p's own rule for such a
+// frame is the one it has for any frame it does not accept: the connection is
+// dropped at it; the class demands that this happens at that frame whatever the
+// segmentation -- whether the frame arrives whole in one read, or is cut 1..7
+// bytes behind its start (inside the size prefix, inside the header) or later.
 // Under every segmentation the calls answered in front of the malformed reply
 // return the function of their own request, every other call of the round
 // (the one the malformed reply belongs to and all whose replies lie behind it)
@@ -26,8 +34,8 @@ import (
 
 type CMalf struct {
 	Pos int    `json:"pos"` // position, in the last round's reply order, of the reply that is made malformed
-	Mut string `json:"mut"` // trunc | inflate
-	At  int    `json:"at"`
+	Mut string `json:"mut"` // trunc | inflate | oversize
+	At  int    `json:"at"`  // (oversize: the size of the Rread frame, msize+1 .. 8*msize+64)
 	By  int    `json:"by,omitempty"`
 }
 
@@ -74,6 +82,38 @@ func recordCMalf(test string, c *Case, cuts []int, n int, bounds []int, split bo
 		start = bounds[mi-1]
 	}
 	hx.Label("cmalf: bytes in front of the malformed reply / (8 x msize) = " + ratioBucket(start, int(8*c.Msize)))
+	if c.CMalf.Mut == "oversize" {
+		sz := c.CMalf.At
+		switch {
+		case sz <= int(c.Msize)+16:
+			hx.Label("cmalf oversize: msize+1 .. msize+16")
+		case sz <= int(2*c.Msize):
+			hx.Label("cmalf oversize: .. 2 x msize")
+		case sz < int(8*c.Msize)-16:
+			hx.Label("cmalf oversize: 2 x msize .. 8 x msize - 16")
+		case sz <= int(8*c.Msize):
+			hx.Label("cmalf oversize: 8 x msize - 16 .. 8 x msize")
+		default:
+			hx.Label("cmalf oversize: above 8 x msize")
+		}
+		first := 0
+		for _, x := range cuts {
+			if x > start && x < end {
+				first = x - start
+				break
+			}
+		}
+		switch {
+		case first == 0:
+			hx.Label("cmalf oversize: the frame arrives in one chunk")
+		case first <= 4:
+			hx.Label("cmalf oversize: first cut 1-4 bytes into the frame")
+		case first <= 7:
+			hx.Label("cmalf oversize: first cut 5-7 bytes into the frame")
+		default:
+			hx.Label("cmalf oversize: first cut >=8 bytes into the frame")
+		}
+	}
 	if behind > 0 || split {
 		cb, _ := json.Marshal(cuts)
 		if len(cb) > 1<<16 {
@@ -127,6 +167,13 @@ func genCMalf(t *rapid.T) *Case {
 	if err != nil {
 		t.Fatalf("harness: %v", err)
 	}
+	if rapid.IntRange(0, 2).Draw(t, "oversize") == 0 {
+		// illegal by size only: the reply to a Read, of msize+1 .. 8*msize+64 bytes
+		last[idx] = Call{Kind: "read", N: rapid.IntRange(0, int(c.Msize)-24).Draw(t, "n")}
+		c.CMalf.Mut, c.CMalf.At = "oversize", drawOverSize(t, c.Msize)
+		c.Plan = drawCMalfPlan(t, pk, c)
+		return c
+	}
 	// an Rremove (7 bytes) cannot be cut; and the Rstat, with its nested
 	// lengths, is made the target half of the time
 	if room := int(c.Msize) - statBase(c.Dotu); room >= 0 && (len(enc) < 8 || rapid.Bool().Draw(t, "stat")) {
@@ -142,17 +189,53 @@ func genCMalf(t *rapid.T) *Case {
 	return c
 }
 
+// drawOverSize draws the size of an oversize reply: just above msize, anywhere
+// up to what the receive buffer holds, around 8 x msize, or a little beyond.
+func drawOverSize(t *rapid.T, msize uint32) int {
+	m := int(msize)
+	switch rapid.IntRange(0, 5).Draw(t, "oversize-class") {
+	case 0:
+		return m + 1
+	case 1:
+		return m + rapid.IntRange(1, 16).Draw(t, "over")
+	case 2:
+		return rapid.IntRange(m+1, 2*m).Draw(t, "over")
+	case 3:
+		return 8*m + rapid.IntRange(-16, 0).Draw(t, "over")
+	case 4:
+		return 8*m + rapid.IntRange(1, 64).Draw(t, "over")
+	}
+	return rapid.IntRange(m+1, 8*m).Draw(t, "over")
+}
+
+// drawCMalfPlan: "near" puts 1..3 cuts within 40 bytes of the malformed reply's
+// end or (a third of the cuts; half of them for an oversize reply) 8 bytes in
+// front of .. 12 bytes behind its START: inside its size prefix, inside its
+// header, in its first data bytes.
 func drawCMalfPlan(t *rapid.T, kind string, c *Case) Plan {
 	n, bounds, err := layout(c)
 	if err != nil || n < 2 {
 		return Plan{Kind: "one"}
 	}
 	if kind == "near" {
-		end := bounds[malfReplyIndex(c)]
+		mi := malfReplyIndex(c)
+		end, start := bounds[mi], 0
+		if mi > 0 {
+			start = bounds[mi-1]
+		}
+		atStart := 2
+		if c.CMalf.Mut == "oversize" {
+			atStart = 1
+		}
 		seen := map[int]bool{}
 		var cuts []int
 		for i, k := 0, rapid.IntRange(1, 3).Draw(t, "ncuts"); i < k; i++ {
-			x := end + rapid.IntRange(-40, 40).Draw(t, "d")
+			var x int
+			if rapid.IntRange(0, atStart).Draw(t, "edge") == 0 {
+				x = start + rapid.IntRange(-8, 12).Draw(t, "h")
+			} else {
+				x = end + rapid.IntRange(-40, 40).Draw(t, "d")
+			}
 			if x >= 1 && x <= n-1 && !seen[x] {
 				seen[x] = true
 				cuts = append(cuts, x)
@@ -235,6 +318,67 @@ func enumCMalfCase(k int) *Case {
 	}
 	c.CMalf.Mut, c.CMalf.At = "trunc", 7+int(hx.Mix(x, 8)%uint64(len(enc)-7))
 	return c
+}
+
+// enumCOverCase is the k-th reply stream of the single-split enumeration of the
+// oversize replies: msize 64 / 100, two rounds of a few calls, in the second
+// one an Rread of msize+1 / 8 x msize / 3 x msize + 7 / 8 x msize + 1 /
+// msize + 5 / 2 x msize bytes, with 1..3 well-formed replies behind it.
+func enumCOverCase(k int) *Case {
+	c := &Case{Side: "cmalf", CMalf: &CMalf{Mut: "oversize"}, Msize: []uint32{64, 100}[k%2], Dotu: (k/2)%2 == 1, Seed: hx.Mix(hx.Seed, 0xC143, uint64(k))}
+	m := int(c.Msize)
+	c.CMalf.At = []int{m + 1, 8 * m, 3*m + 7, 8*m + 1, m + 5, 2 * m}[k%6]
+	x := c.Seed
+	call := func(i int) Call {
+		x = hx.Mix(x, uint64(i))
+		switch x % 6 {
+		case 0:
+			return Call{Kind: "read", N: m - 24 - int((x>>8)%2)}
+		case 1:
+			return Call{Kind: "write", Err: true, N: int((x >> 8) % 20)}
+		case 2:
+			return Call{Kind: "write", N: int((x >> 8) % 30)}
+		case 3:
+			return Call{Kind: "open"}
+		case 4:
+			return Call{Kind: "read", N: int((x >> 8) % 12)}
+		}
+		return Call{Kind: "remove"}
+	}
+	var r0, r1 []Call
+	n0 := 1 + int(hx.Mix(x, 1)%5)
+	if k%3 == 2 {
+		n0 += 8 // the oversize reply lies deeper in the receive buffer
+	}
+	for i := 0; i < n0; i++ {
+		r0 = append(r0, call(i))
+	}
+	for i, n := 0, 2+int(hx.Mix(x, 2)%3); i < n; i++ {
+		r1 = append(r1, call(100+i))
+	}
+	c.Rounds = [][]Call{r0, r1}
+	c.CMalf.Pos = int(hx.Mix(x, 3) % uint64(len(r1)-1)) // never the last: something follows
+	probe := *c
+	probe.Side, probe.CMalf = "client", nil
+	if l, err := clientLayout(&probe); err == nil {
+		r1[l.order[1][c.CMalf.Pos]] = Call{Kind: "read", N: 5}
+	}
+	for len(c.Rounds[0]) > 1 {
+		if n, _, err := layout(c); err != nil || n <= 1990 {
+			break
+		}
+		c.Rounds[0] = c.Rounds[0][1:]
+	}
+	return c
+}
+
+func TestEnumCOverSplits(t *testing.T) {
+	ns := 3
+	if hx.Thorough() {
+		ns = 3 * hx.NShards
+	}
+	enumerate(t, "cover-single-split", ns, enumCOverCase)
+	hx.Exhaustive(fmt.Sprintf("client: every single split point of %d reply streams that contain one Rread larger than msize (msize+1 .. 8 x msize + 1 bytes), followed by 1..3 well-formed replies", ns))
 }
 
 func TestEnumCMalfSplits(t *testing.T) {
